@@ -4,10 +4,13 @@ spec/RefElement.tla (exact reference bases, node functionals), spec/DofMap.tla (
 spec/Transfer.tla (P[i',j] = fine node functional applied to the coarse basis function, evaluated exactly from the
 refinement topology), spec/TransferCheck.tla (TLC judges what the real code produced), spec/MeshGen.tla (TLC generates
 every gluing of two reference cells / every rotation of one cell), harness/c18_transfer.cpp (+ _s / _h wrappers).
+Histories within one process: spec/TransferHist.tla (TLC enumerates sequences of 1-3 assemblies / refined-rule requests with different
+cubature rules of equal size, different elements and shapes), spec/TransferHistCheck.tla + the laws at the end of spec/Transfer.tla
+(OrderIndependent, RefinedRulePoints/Weights), lib/c18hist.py.
 """
 import glob, json, os, shutil
 import concurrent.futures as cf
-import vlib, vmeshlib, vfemlib
+import vlib, vmeshlib, vfemlib, c18hist
 
 LEVEL = "model_checking"
 SHAPES = [("simplex", 2), ("simplex", 3), ("hypercube", 2), ("hypercube", 3)]
@@ -222,12 +225,25 @@ def _run(chk, tier, bins, gdir):
     table = element_table(chk)
     if table is None:
         return
-    meshes = gen_meshes(chk, tier)
+    with cf.ThreadPoolExecutor(max_workers=2) as ex0:
+        fut_h = ex0.submit(c18hist.generate, chk, tier)
+        meshes = gen_meshes(chk, tier)
+        hists = fut_h.result()
     cases = make_cases(tier, table, meshes)
     for c in cases:
         c["out"] = os.path.join(gdir, c["id"] + ".json")
     good = []
+    # histories within one process: every history in its own harness process; the distinct observations of the transfer steps join the
+    # cases judged by TransferCheck below
     worst = {"dev_p": 0.0, "dev_tp": 0.0, "dev_v": 0.0, "dev_fn": 0.0, "vdev": 0.0, "rdev": 0.0, "xc_dev": 0.0, "xf_dev": 0.0, "dev_xs": 0.0, "ctl_dev": 0.0}
+    hist_info = None
+    if hists:
+        runs = c18hist.execute(hists, bins, gdir, table, meshes)
+        reps, hist_info = c18hist.judge(chk, runs, tier)
+        for s, c, r in reps:
+            good.append(c)
+            for k in (("dev_p", "dev_v") if c["ps"] > 0 else ("vdev", "rdev")) + (("dev_tp", "dev_fn") if c["nested"] else ()) + ("ctl_dev",):
+                worst[k] = max(worst[k], r.get(k, 0.0))
     for fam in ("simplex", "hypercube"):
         cs = [c for c in cases if c["fam"] == fam]
         # the runner cuts the list into contiguous shards: interleave, so that the expensive cases (3D factories, files) are spread over all of them
@@ -270,6 +286,7 @@ def _run(chk, tier, bins, gdir):
     chk.traces = len(full)
     chk.exhaustive = True
     chk.extra["generated_meshes"] = len(meshes)
+    chk.extra["histories"] = hist_info
     chk.extra["cases_by_family"] = {}
     for c in good:
         k = "%s/%s%d" % (c["el"], c["fam"], c["dim"])
@@ -283,7 +300,12 @@ def _run(chk, tier, bins, gdir):
                 "code, permuted by one of the 8 strategies, and the transfer operators of every element family with an exact basis in spec/RefElement.tla are "
                 "assembled by the real code; TLC recomputes P from the refinement topology and judges ProlExact, ProlWellDefined, RestIsTranspose(+bitwise), "
                 "TruncLeftInverse, VectorProlAgrees, TransferProl/RestAgrees, DofMap, and ProlExactFunction (function-level projection, all nested families); a case = (mesh, route, family, strategy, cubature); non-trivial = "
-                "P has non-zero entries; quick tier: 3D gluings are sub-sampled (stride 2-8), thorough: all")
+                "P has non-zero entries; quick tier: 3D gluings are sub-sampled (stride 2-8), thorough: all.  HISTORIES (spec/TransferHist.tla): TLC enumerates "
+                "sequences of 1-3 steps in ONE process - a step = assembly of P, T and prolongate_vector (3 orders) for (element, cubature rule) or a direct "
+                "request of a refined rule; rules = every driver rule of the C14 name language up to 16-64 points, plain and refined; every ordered pair "
+                "of steps that request refinements of DIFFERENT rules with the SAME number of points, same rule / other element, neighbouring and sampled "
+                "other counts, the two dimensions of a family, a-bridge-c and pairwise colliding triples; each step must equal its fresh-process "
+                "observation bit by bit (OrderIndependent), each distinct observation is judged like a case (transfer) or by RefinedRulePoints/Weights")
     for d in full[:: max(1, len(full) // 3)][:3]:
         c = byid[d["id"]]
         chk.sample({"id": d["id"], "mesh": c["srcname"], "fam": c["fam"], "dim": c["dim"], "el": c["el"], "perm": c["perm"], "verdict": verdicts[d["id"]],
@@ -296,7 +318,10 @@ def _run(chk, tier, bins, gdir):
                        "definition); Lagrange-3 and Bernstein-2 through the function-level projection only (u_h(P x) = u_H(x) at lattice points, tolerance "
                        "1e-9 (1 + magnitude), parent cell and coarse reference point from the harness' own inverse mapping); Global/muxed transfer objects and "
                        "the non-nested families (Rannacher-Turek, Q1~, P2-bubble, Hermite, Argyris, BFS, CDSSY) are not covered",
-                       "shipped mesh files are snapped to a dyadic grid before refinement (a still valid mesh)"]
+                       "shipped mesh files are snapped to a dyadic grid before refinement (a still valid mesh)",
+                       "histories: one harness binary per shape family, so simplex and hypercube assemblies are not mixed in one process; rules with more "
+                       "than 25 (quads) / 64 (hexahedra) / 16 (triangles) / 48 (tetrahedra) points (thorough: 36 / 64 / 28 / 48) and auto-degree aliases are "
+                       "not part of the enumerated histories; refined-rule points are compared at 2^-20 with the rounding tolerance stated in Transfer.tla"]
 
 
 def replay(obj):
